@@ -293,7 +293,15 @@ def prefix_phase(prop, tier, base_seed):
     return out
 
 
-def _resume_job(name, flags, cuts):
+def _resume_job(name, flags, cuts, aim_tie=False):
+    if aim_tie:
+        # move the first cut into a group of exactly equal probabilities: the k-th pop (whose probability is saved) is
+        # then a later member of a tie whose earlier members were already emitted
+        pops = pop_prefix(name, cuts[0] + 4000, flags.get("skip_brute", False), flags.get("skip_case", False))
+        for i in range(max(0, cuts[0] - 1), len(pops) - 1):
+            if pops[i][1] == pops[i + 1][1]:
+                cuts = [i + 2] + list(cuts[1:])
+                break
     problem, stats = resume_history(name, flags, cuts)
     return {"problem": problem, "stats": dict(stats), "name": name, "flags": flags, "cuts": cuts}
 
@@ -318,7 +326,7 @@ def resume_phase(tier, base_seed):
         for _ in range(ncyc):
             style = t.draw(4)
             cuts.append(1 if style == 0 else t.between(2, 40) if style == 1 else t.between(2, hi))
-        jobs.append((name, flags, cuts))
+        jobs.append((name, flags, cuts, h % 2 == 0))
     for r in _fan_out(_resume_job, jobs):
         out["shipped_ruleset_histories"] += 1
         out["shipped_ruleset_cycles"] += r["stats"].get("cycles", 0)
@@ -331,13 +339,15 @@ def resume_phase(tier, base_seed):
     return out
 
 
-def _limit_job(name, flags, n, m):
+def _limit_job(name, flags, n, m, aim=None):
     """--limit n against --limit m (n < m) through pcfg_guesser.main(): exactly n lines, the first n of the longer run,
-    nothing on stdout that was not handed to print_guess"""
+    nothing on stdout that was not handed to print_guess.  aim (a fraction): n is moved inside the first Markov level
+    of the longer run"""
     wr = link_ruleset(name)
     out = {"name": name, "flags": flags, "n": n, "m": m, "problem": None, "markov_guesses": 0}
     runs = {}
-    for lim in (m, n):
+    for which in ("m", "n"):
+        lim = m if which == "m" else n
         for fn in os.listdir(wr):
             if fn.endswith(".sav") or fn.endswith(".omn"):
                 os.unlink(os.path.join(wr, fn))
@@ -358,8 +368,15 @@ def _limit_job(name, flags, n, m):
             out["problem"] = ("limit_not_exact", {"limit": lim, "written": len(r.lines)})
             return out
         runs[lim] = r.lines
-        if lim == n:
-            E = session.emitted_preterminals(ctx)
+        E = session.emitted_preterminals(ctx)
+        if which == "m" and aim is not None:
+            ends = [e["first_line"] for e in E[1:]] + [len(r.lines)]
+            for e, end in zip(E, ends):
+                if len(e["pt"]) == 1 and e["pt"][0][0] == "M" and end - e["first_line"] >= 3 and end < m:
+                    n = e["first_line"] + 1 + int(aim * (end - e["first_line"] - 2))
+                    out["n"] = n
+                    break
+        if which == "n":
             if E and len(E[-1]["pt"]) == 1 and E[-1]["pt"][0][0] == "M":
                 out["limit_inside_markov_level"] = True
     if runs[n] != runs[m][:n]:
@@ -382,7 +399,12 @@ def limit_phase(tier, base_seed):
         flags = FLAG_SETS[t.draw(4)] if t.chance(1, 3) else {}
         n = t.between(1, 3000) if t.chance(1, 2) else t.between(1, 120000)
         m = n + t.between(1, 30000)
-        jobs.append((name, flags, n, m))
+        aim = None
+        if t.chance(1, 2) or (tier == "quick" and base_seed % 2 == 0):
+            # (Rules/Russian has an empty CP.level in this tree: its Markov levels hold no strings)
+            name, flags, aim = "Default", {k: v for k, v in flags.items() if k != "skip_brute"}, t.draw(1000) / 1000.0
+            m = max(m, 3000)
+        jobs.append((name, flags, n, m, aim))
     for r in _fan_out(_limit_job, jobs):
         out["shipped_ruleset_limit_pairs"] += 1
         out["shipped_ruleset_lines"] += r["n"] + r["m"]
@@ -477,5 +499,156 @@ def prince_phase(tier, base_seed):
             out["violations"].append({"seed": base_seed, "tape": list(t.rec), "violation": {
                 "property": "C17", "kind": "shipped_ruleset:" + r["problem"][0], "key": None,
                 "detail": dict(r["problem"][1], ruleset=r["name"], all_lower=r["lower"], size=r["n"], longer=r["m"])},
+                "case": None})
+    return out
+
+
+# ---------------------------------------------------------------------------
+# C15 on a shipped ruleset: quit inside a Markov level of the real trained OMEN model
+
+_REFOMEN = {}
+
+
+def _omen_strings(name, level):
+    from .refmodel import RefOmen
+    k = (name, level)
+    if k not in _REFOMEN:
+        ro = RefOmen(os.path.join(shipped_dir(name), "Omen"))
+        _REFOMEN[k] = ro.strings(level, cap=300000)
+    return _REFOMEN[k]
+
+
+def omen_history(name, m, j_frac, style, k_tail):
+    """A: quit right after the j-th guess of the m-th Markov pre-terminal; B: --load (style 'remainder': quit again inside
+    the restored remainder, then B2: --load); then C: --load once more after a quit at a pop -- must not replay.
+    Non-Markov pre-terminals are not expanded (stub).  Returns (problem, stats)."""
+    wr = link_ruleset(name)
+    for fn in os.listdir(wr):
+        if fn.endswith(".sav") or fn.endswith(".omn"):
+            os.unlink(os.path.join(wr, fn))
+    stats = collections.Counter()
+    ref = ref_for(name)
+    groups = ref.vars["M"]
+    if m > len(groups) or len(groups[m - 1]["values"]) != 1:
+        return ("void", {"reason": "no single-level Markov group %d" % m}), stats
+    level = int(groups[m - 1]["values"][0])
+    want = collections.Counter(_omen_strings(name, level))
+    n = sum(want.values())
+    if n < 2:
+        return ("void", {"reason": "level %d of %s has %d strings" % (level, name, n)}), stats
+    j = 1 + int(j_frac * (n - 1))
+    knobs = {"stub_expansion": "non_markov", "guess_cap": 3 * n + 400000, "restore_work_limit": 4000000}
+    argv = ["-r", name, "-s", "BIGM"]
+
+    def cycle(load, trigger):
+        ctx = session.SessionCtx(trigger=trigger, knobs=dict(knobs))
+        r = session.run_main(argv + (["--load"] if load else []), ctx)
+        r.emitted = session.emitted_preterminals(ctx)
+        r.remainder = []
+        for call in ctx.restore_omen_calls:
+            r.remainder.extend(ctx.guesses[call[1]:call[2] if call[2] is not None else ctx.nlines])
+        stats["cycles"] += 1
+        return r
+
+    def broken(r, c):
+        if r.exc:
+            if "GuessCap" in r.exc:
+                return ("void", {"reason": "scripted quit point not reached", "cycle": c})
+            return ("raised", {"cycle": c, "exception": r.exc[-1200:]})
+        if r.lines != r.ctx.guesses:
+            return ("guess_generated_but_not_written", {"cycle": c, "stdout": len(r.lines), "generated": len(r.ctx.guesses)})
+        return None
+
+    rA = cycle(False, ("omen", m, j))
+    pb = broken(rA, "A")
+    if pb:
+        return pb, stats
+    if not rA.ctx.fired or rA.ctx.fired_in != "omen" or not rA.emitted:
+        return ("void", {"reason": "quit did not land inside the level", "fired": rA.ctx.fired}), stats
+    e = rA.emitted[-1]
+    linesA = rA.ctx.guesses[e["first_line"]:]
+    gotA = collections.Counter(linesA)
+    if gotA - want:
+        return ("omen_level_wrong_strings", {"cycle": "A", "extra": sorted((gotA - want).elements())[:5], "level": level}), stats
+    owed = want - gotA
+    stats["quit_strictly_inside_level"] += 1 if 0 < len(linesA) < n else 0
+    stats["strings_before_quit"] += len(linesA)
+    # B (and B2): the remainder
+    trig = ("remainder", 1 + int(0.37 * max(0, sum(owed.values()) - 1))) if style == "remainder" and sum(owed.values()) >= 2 \
+        else ("pop", k_tail)
+    rB = cycle(True, trig)
+    pb = broken(rB, "B")
+    if pb:
+        return pb, stats
+    gotB = collections.Counter(rB.remainder)
+    if gotB - owed:
+        return ("omen_remainder_repeats_or_foreign", {"cycle": "B", "extra": sorted((gotB - owed).elements())[:5]}), stats
+    if trig[0] == "remainder":
+        if not (rB.ctx.fired and rB.ctx.fired_in == "remainder"):
+            return ("void", {"reason": "second quit did not land inside the remainder"}), stats
+        stats["quit_inside_restored_remainder"] += 1
+        owed = owed - gotB
+        rB2 = cycle(True, ("pop", k_tail))
+        pb = broken(rB2, "B2")
+        if pb:
+            return pb, stats
+        gotB2 = collections.Counter(rB2.remainder)
+        if gotB2 - owed:
+            return ("omen_remainder_repeats_or_foreign", {"cycle": "B2", "extra": sorted((gotB2 - owed).elements())[:5]}), stats
+        owed = owed - gotB2
+        last = rB2
+    else:
+        owed = owed - gotB
+        last = rB
+    if owed:
+        return ("omen_remainder_skipped", {"missing": sorted(owed.elements())[:5], "count": sum(owed.values()), "level": level,
+                                           "quit_after": j}), stats
+    stats["remainder_strings"] += sum(gotB.values())
+    if not last.ctx.fired:
+        return ("void", {"reason": "tail quit not reached"}), stats
+    # the pre-terminals after the remainder continue below the saved probability, Markov group m not again
+    for ee in last.emitted:
+        if ee["pt"] == e["pt"]:
+            return ("markov_level_started_again_after_its_remainder", {"pt": repr(ee["pt"])}), stats
+    # C: one more cycle must not replay the remainder
+    rC = cycle(True, ("pop", 3))
+    pb = broken(rC, "C")
+    if pb:
+        return pb, stats
+    if rC.remainder or rC.ctx.restore_omen_calls:
+        return ("stale_omen_replay", {"lines_replayed": len(rC.remainder), "first": rC.remainder[:3]}), stats
+    return None, stats
+
+
+def _omen_job(name, m, j_frac, style, k_tail):
+    problem, stats = omen_history(name, m, j_frac, style, k_tail)
+    return {"problem": problem, "stats": dict(stats), "name": name, "m": m, "j_frac": j_frac, "style": style}
+
+
+def omen_phase(tier, base_seed):
+    """C15 on the shipped Default ruleset (Rules/Russian has an empty CP.level in this tree: its Markov levels are empty)"""
+    from .tape import Tape
+    out = {"shipped_ruleset_markov_histories": 0, "shipped_ruleset_markov_cycles": 0, "shipped_ruleset_void": 0, "violations": []}
+    if "Default" not in available():
+        return out
+    t = Tape(seed=base_seed * 7283 + 53)
+    jobs = []
+    for h in range(1 if tier == "quick" else 12):
+        m = 1 if (tier == "quick" or t.chance(2, 3)) else 2
+        style = t.draw(5)
+        j_frac = 0.0 if style == 0 else 1.0 if style == 1 else t.draw(1000) / 1000.0
+        jobs.append(("Default", m, j_frac, "remainder" if t.chance(1, 2) else "pop", t.between(1, 60)))
+    for r in _fan_out(_omen_job, jobs):
+        out["shipped_ruleset_markov_cycles"] += r["stats"].get("cycles", 0)
+        for k in ("quit_strictly_inside_level", "quit_inside_restored_remainder", "remainder_strings"):
+            out["shipped_ruleset_" + k] = out.get("shipped_ruleset_" + k, 0) + r["stats"].get(k, 0)
+        if r["problem"] and r["problem"][0] == "void":
+            out["shipped_ruleset_void"] += 1
+            continue
+        out["shipped_ruleset_markov_histories"] += 1
+        if r["problem"]:
+            out["violations"].append({"seed": base_seed, "tape": list(t.rec), "violation": {
+                "property": "C15", "kind": "shipped_ruleset:" + r["problem"][0], "key": None,
+                "detail": dict(r["problem"][1], ruleset=r["name"], markov_group=r["m"], quit_fraction=r["j_frac"], style=r["style"])},
                 "case": None})
     return out
